@@ -148,16 +148,19 @@ def generate(rng: random.Random, tier: str) -> dict:
     nf = rng.choice([1, 2, mn, 2 * mn + 1]) if rng.random() < 0.5 else None
     if nh is not None:
         nh = max(1, nh)
-    nsub = rng.choice([1, 1, 1, 2, 3, 4])
+    deep = tier == "thorough" and rng.random() < 0.15  # wider ranges: more sub-streams, deeper folds, bigger chunks
+    nsub = rng.choice([1, 1, 1, 2, 3, 4]) if not deep else rng.choice([1, 2, 5, 6])
     sizes = [0, 1, mn - 1, mn, mn + 1, 2 * mn - 1, 2 * mn + 1, max(0, spill - 1) % (8 * mn + 1), (spill + 1) % (8 * mn + 1), 5 * mn, 3, 25]
     sizes = [max(0, s) for s in sizes]
     subs = []
     maxp = 8 if layer == "A" else 9
+    if deep:
+        sizes = sizes + [40 * mn, 17 * mn + 1]
     for _ in range(nsub):
-        P = rng.choice([1, 1, 2, 2, 3, 4, 5, 6, maxp])
+        P = rng.choice([1, 1, 2, 2, 3, 4, 5, 6, maxp]) if not deep else rng.choice([1, 4, 5, 11, 16, 17, 18])
         parts = []
         for _p in range(P):
-            nch = rng.choice([1, 1, 1, 2, 3])
+            nch = rng.choice([1, 1, 1, 2, 3]) if not deep else rng.choice([1, 2, 4, 6])
             parts.append([rng.choice(sizes) for _ in range(nch)])
         subs.append(parts)
     total_p = sum(len(s) for s in subs)
